@@ -15,7 +15,9 @@ CFG = {
                           "RpmVerif.C12.digest_algo_fallbacks"],
     "trivial_branches": ["parse-err"],
     "rule": "every case = one package extracted by the real Package::extract inside a chroot jail with decoys outside /target "
-            "(snapshot of the whole jail before/after). Hand-encoded packages come in two archive forms, since files() looks the header file up per "
+            "(snapshot of the whole jail before/after). Builder-made packages are ALSO extracted as the un-reparsed Package value build() returned (op extractmem12: the value is rebuilt "
+            "from a file spec in the request, checked to write exactly the package bytes the driver sees, and extracted without ever being written or parsed; all fixed builder cases, every compressor, every "
+            "third seeded benign one; one with the destination spelled relatively). Hand-encoded packages come in two archive forms, since files() looks the header file up per "
             "entry (fix 3cfa908): stripped entries (07070X + file index: entry i belongs to header file i whatever the paths, duplicates included) and "
             "newc entries named after the header path; every family is run in both. Cases: the corpus witnesses, ~75 hand-encoded hostile packages covering every family of the "
             "quantifier text ('..' in directory and base names, absolute/empty/relative names, duplicate paths in all type combinations, a link followed "
